@@ -27,7 +27,8 @@ class Prop(c14.Prop):
     RULE = ("failing load attempts: 13 fault kinds (cycled) x user classes on/off (7 variants) x single / multi-file x nested "
             "loads x global repository; non-trivial = the attempt failed after at least one model object existed "
             "(an event was logged or a class was instrumented)")
-    MODELLED = (c14.Prop.MODELLED + "; roots modelled: class instrumentation state and _tx_obj_attrs keys; weakref/gc "
+    MODELLED = (c14.Prop.MODELLED + "; roots modelled: class instrumentation state and _tx_obj_attrs keys; history: the later attempt of the probe "
+                "(repaired files, same metamodel) is compared with runNext on runHist (ok, events, snapshots); weakref/gc "
                 "liveness is observed on the implementation only (census of live instances after gc.collect())")
     PROBE = True
     FAULTS = [i for i, f in enumerate(lt.FAULTS) if f[0] != "none"]
